@@ -356,6 +356,12 @@ def IndexPre (c : Cache) : Op → Prop
   | .rdel u n => NodeStable c u n
   | _ => True
 
+instance (c : Cache) (u n : Nat) : Decidable (NodeStable c u n) := by
+  unfold NodeStable; exact inferInstance
+
+instance (c : Cache) (op : Op) : Decidable (IndexPre c op) := by
+  cases op <;> simp only [IndexPre] <;> exact inferInstance
+
 theorem active_node (o : RObj) (h : o.active = true) : o.node ≠ 0 := by
   simp [RObj.active] at h; exact h.1
 
